@@ -79,22 +79,22 @@ class TokenRevocation(Endpoint):
         _token = grant.get_token(request_token)
 
         try:
-            self.token_types_supported = _context.cdb[client_id]["token_revocation"][
+            _token_types_supported = _context.cdb[client_id]["token_revocation"][
                 "token_types_supported"
             ]
         except Exception:
-            self.token_types_supported = self.token_revocation_kwargs.get(
+            _token_types_supported = self.token_revocation_kwargs.get(
                 "token_types_supported", self.token_types_supported
             )
 
         try:
-            self.policy = _context.cdb[client_id]["token_revocation"]["policy"]
+            _policy = _context.cdb[client_id]["token_revocation"]["policy"]
         except Exception:
-            self.policy = self.token_revocation_kwargs.get(
+            _policy = self.token_revocation_kwargs.get(
                 "policy", {"": {"function": validate_token_revocation_policy}}
             )
 
-        if _token.token_class not in self.token_types_supported:
+        if _token.token_class not in _token_types_supported:
             desc = (
                 "The authorization server does not support the revocation of "
                 "the presented token type. That is, the client tried to revoke an access "
@@ -102,18 +102,22 @@ class TokenRevocation(Endpoint):
             )
             return self.error_cls(error="unsupported_token_type", error_description=desc)
 
-        return self._revoke(_revoke_request, _session_info)
+        return self._revoke(_revoke_request, _session_info, _policy)
 
-    def _revoke(self, request, session_info):
+    def _revoke(self, request, session_info, policy=None):
+        if policy is None:
+            policy = self.token_revocation_kwargs.get(
+                "policy", {"": {"function": validate_token_revocation_policy}}
+            )
         _context = self.upstream_get("endpoint_context")
         _mngr = _context.session_manager
         _token = _mngr.find_token(session_info["branch_id"], request["token"])
 
         _cls = _token.token_class
-        if _cls not in self.policy:
+        if _cls not in policy:
             _cls = ""
 
-        temp_policy = self.policy[_cls]
+        temp_policy = policy[_cls]
         function = temp_policy["function"]
         kwargs = temp_policy.get("kwargs", {})
 
